@@ -150,11 +150,11 @@ def run(ctx):
     n_corpus = run_corpus(ctx, impl)
 
     # ---- generated stream: implementation + oracle
-    n_rand = 9000 if quick else 600000
+    n_rand = 9000 if quick else 400000
     gen = ac.gen_cases(ctx.rng, n_rand)
     cases, cls_count, len_count, tol_count, maxd = [], {}, {}, {}, 0
     fcases, unobserved = [], 0
-    n_front = 10 ** 9 if quick else 150000     # calls whose front-end values are observed and compared
+    n_front = 10 ** 9 if quick else 40000     # calls whose front-end values are observed and compared
     fe_max, fe_arg, fe_by_decade = 0.0, None, {}
     excess_max, excess_arg = -1.0, None
     for angle, tol, cls in gen:
@@ -207,7 +207,7 @@ def run(ctx):
             b_kinds["n_d_only" if r.get("angle") is None else "angle_with_n_d" if ("n" in r or "d" in r) else "angle_only"] += 1
 
     # ---- correspondence with the Coq model (vm_compute inside coqc)
-    n_coq = len(cases) if quick else min(len(cases), 150000)
+    n_coq = len(cases) if quick else min(len(cases), 80000)
     if not quick and n_coq < len(cases):
         # all deterministic families and builder cases, plus a random sample of the rest
         det = [i for i, c in enumerate(gen) if c[2] not in ("uniform[0,2pi)", "uniform[-2pi,0)")]
